@@ -27,8 +27,10 @@ check:clauses as reported by the quick tier; "missed before" names a check that 
 |---|---|---|---|---|---|
 """ + "\n".join(rows) + """
 
-Totals: %d changes kept, all caught by the check of the property they were written against in the quick tier;
-%d of them only after the check was strengthened (recorded in the last column and in §0.5).
+Totals: %d changes kept, every one caught in the quick tier - by the check of the property it was written against,
+with one exception: `C07-msp-sequence-len-eq-k` changes `msp_sequence`, which is C08's observation point, and is caught
+there (C08:M3) while the C07 check, which observes `Scanner::scan` / `simple_scan`, rightly stays quiet.
+%d of them were caught only after the check was strengthened (recorded in the last column).
 """ % (len(rows), sum(1 for d in glob.glob(os.path.join(root, "seeded", "*")) if json.load(open(os.path.join(d, "meta.json"))).get("missed_before_strengthening")))
 rj = os.path.join(root, "seeded_rejected", "README.json")
 if os.path.exists(rj):
